@@ -28,10 +28,16 @@ LEVEL_TEXT = ("Lean theorems over ℝ / IEEE classes: a component outside [lower
               "likelihood returned, and the total is a real number or −inf — never NaN or +inf — when the other terms are; the "
               "curved-ΛCDM guard is SOUND ON THE WHOLE INTERVAL: if it accepts (Ω_m ≥ 0) then E(z)² > 0 for every z between 0 and "
               "the highest redshift of the data set (cubic analysis: interior stationary point), with a Lean witness that "
-              "end-point tests alone are insufficient.  Correspondence: class of the result and evaluated-or-not on random "
+              "end-point tests alone are insufficient; THE PROVISO made exact on the draw pipeline (Model/Lens, shared with "
+              "C03/C04): a single evaluation raises ValueError only if a population mean (gamma_in, log_m2l, a_ani, beta_inf) "
+              "lies outside its interpolation range, the lens is assigned to a line-of-sight population of unknown kind, or a "
+              "declared scaling parameter is not among the statically realised parameters — never because of a draw, for every "
+              "stream and recursion depth (no_range_error, inside_box_inside_range), and conversely a missing scaling "
+              "parameter always raises.  Correspondence: class of the result and evaluated-or-not on random "
               "configurations; the statement evaluated on CosmoLikelihood.likelihood.")
 LEVEL_NOTE = ("partial: non-NaN behaviour of astropy/numpy/scipy inside the box is a hypothesis on the externals (explored by the "
-              "boundary-biased search); float overflow outside the model; no-ValueError-for-in-range-bounds rests on C09/C10")
+              "boundary-biased search); float overflow outside the model; the interpolators' own range errors (scipy) are covered by C09/C10 (draws "
+              "stay inside the grid), not re-proved here")
 TECHNIQUE = "Lean 4 proof (list induction, IEEE class algebra, real algebra of a cubic) + correspondence"
 
 COSMO_BOX = {
